@@ -68,7 +68,7 @@ func cmdCheck(args []string) int {
 		o.tier = v
 	}
 	o.props = splitList(props)
-	o.timeout = 10 * time.Second
+	o.timeout = 20 * time.Second
 	if o.tier == "thorough" {
 		o.timeout = 60 * time.Second
 	}
